@@ -603,7 +603,9 @@ impl Packet {
                         _ => {}
                     };
 
-                    options_number += delta;
+                    options_number = delta
+                        .checked_add(options_number)
+                        .ok_or(MessageError::InvalidOptionDelta)?;
 
                     let end = idx + length;
                     if end > buf.len() {
